@@ -18,6 +18,10 @@ def classify(m):
     glog = [x for x in got if isinstance(x, list) and x and x[0] == 'log']
     ecore = [x for x in exp if not (isinstance(x, list) and x and x[0] == 'log')]
     gcore = [x for x in got if not (isinstance(x, list) and x and x[0] == 'log')]
+    if ecore and ecore[0] == 'exc' and ecore[1] == 'TypeError' and "for &: 'float' and 'int'" in json.dumps(ecore) and ecore != gcore:
+        # `obj & 7` used as a slice bound / repetition count is computed in C after converting obj to a C integer, which
+        # accepts a float (truncated; NaN -> ValueError) where CPython rejects `float & int` with TypeError
+        return 'float-operand-of-bitand-converted-to-C-integer'
     if ecore == gcore:
         try:
             el, gl = elog[0][1], glog[0][1]
